@@ -4,8 +4,9 @@ import json
 import pathlib
 
 V = pathlib.Path(__file__).resolve().parent.parent
-props = json.loads((V / "harness" / "props.json").read_text())
-texts = json.loads((V / "tools" / "manifest_texts.json").read_text())
+props = {p.stem: json.loads(p.read_text()) for p in sorted((V / "harness" / "props.d").glob("C*.json"))}
+texts = {p.stem: json.loads(p.read_text()) for p in sorted((V / "tools" / "manifest.d").glob("C*.json"))}
+props = {k: v for k, v in props.items() if k in texts and v.get("claimed", True)}
 all_ids = [json.loads(l)["id"] for l in (V / "properties.jsonl").read_text().splitlines() if l.strip()]
 BASE = ("cd /repo && /venv/bin/python -m pytest -ra -q -p no:cacheprovider --timeout=900 "
         "--continue-on-collection-errors")
